@@ -565,4 +565,6 @@ harnesses! {
     c02_step_jmp { prop: C02, feat: "c02", tier: thorough, mode: leaf, unwind: 3, caps: "drop=1,loop:avra_lib::builder::pass1::pass_1_internal.0=4,loop:avra_lib::builder::pass2::pass_2_internal.0=4" } => |s| step::layout_instr(s, 1, false);
     c02_step_lds { prop: C02, feat: "c02", tier: thorough, mode: leaf, unwind: 3, caps: "drop=1,loop:avra_lib::builder::pass1::pass_1_internal.0=4,loop:avra_lib::builder::pass2::pass_2_internal.0=4" } => |s| step::layout_instr(s, 2, false);
     c02_step_sts8l { prop: C02, feat: "c02", tier: thorough, mode: leaf, unwind: 3, caps: "drop=1,loop:avra_lib::builder::pass1::pass_1_internal.0=4,loop:avra_lib::builder::pass2::pass_2_internal.0=4" } => |s| step::layout_instr(s, 3, true);
+    c05_func_log2_neg { prop: C05, feat: "c05", tier: quick, mode: full, unwind: 67, caps: "run=2,clone=1,drop=2" } => |s| c05::ev_func(s, 9, 10, 0);
+    c12_device_select { prop: C12, feat: "c12", tier: thorough, mode: full, unwind: 60, caps: "run=1,clone=1,drop=1" } => |s| c12::device_select(s);
 }
